@@ -69,6 +69,29 @@ class Ptr:
         return hash((id(self.buf), self.off))
 
 
+class _VarCell(dict):
+    """pointer to a scalar local of some frame: reads and writes go to that variable"""
+    def __init__(self, env, name):
+        dict.__init__(self)
+        self.env = env
+        self.name = name
+
+    def __contains__(self, k):
+        return k == "__deref__"
+
+    def __getitem__(self, k):
+        return self.env[self.name]
+
+    def __setitem__(self, k, v):
+        self.env[self.name] = v
+
+    def get(self, k, d=None):
+        return self.env[self.name] if k == "__deref__" else d
+
+    def __bool__(self):
+        return True
+
+
 class Opaque:
     def __repr__(self):
         return "<opaque>"
@@ -382,6 +405,17 @@ class Interp:
                 return OPAQUE
             if op in ("post++", "pre++", "post--", "pre--"):
                 return self._incdec(f, e, env, depth)
+            if op == "&":
+                t_ = e["e"]
+                while t_["k"] == "cast":
+                    t_ = t_["e"]
+                if t_["k"] == "ref" and t_["name"] in env and not isinstance(env[t_["name"]], dict):
+                    return _VarCell(env, t_["name"])       # the address of a scalar local
+                if t_["k"] == "member" and t_["field"] not in self.fields:
+                    b_ = self.expr(f, t_["base"], env, depth)
+                    if isinstance(b_, dict) and not isinstance(b_.get(t_["field"]), dict):
+                        b_.setdefault(t_["field"], OPAQUE)
+                        return _VarCell(b_, t_["field"])   # the address of a scalar field
             v = self.expr(f, e["e"], env, depth)
             if op == "&":
                 return v if isinstance(v, dict) else OPAQUE
